@@ -186,11 +186,11 @@ func sdpVideo(kind int64, nal []byte) Val {
 	if o1.String() != o2.String() {
 		return L(I(4), o1, o2)
 	}
-	// the stored parameter sets are what every later consumer (muxers, late joiners) is given
-	for _, sp := range stored {
-		if !bytes.Equal(sp, nal) {
-			return L(I(7), B(sp))
-		}
+	// the stored parameter sets are what every later consumer (muxers, late joiners) is given: both
+	// entry points must store the same bytes; what they must be (the bytes sent, minus an Annex-B
+	// start code that the SDP code strips) is decided by the oracle, which gets them
+	if !bytes.Equal(stored[0], stored[1]) {
+		return L(I(7), B(stored[0]), B(stored[1]))
 	}
 	if kind == 265 && (!bytes.Equal(v.Vps, dummyVps265) || !bytes.Equal(v.Pps, dummyPps265)) {
 		return L(I(7), B(v.Vps))
@@ -205,7 +205,7 @@ func sdpVideo(kind int64, nal []byte) Val {
 	if o3 := videoObs(&v2); o3.String() != o1.String() {
 		return L(I(8), o1, o3)
 	}
-	return o1
+	return L(o1, B(append([]byte{}, stored[0]...)))
 }
 
 func init() {
